@@ -333,12 +333,13 @@ func c19RunExprInner(s string) (string, string) {
 }
 
 func c19ClauseKind(clause string) string {
-	if i := strings.IndexByte(clause, ':'); i > 0 && i < 40 {
-		clause = clause[:i]
-	}
-	for _, k := range []string{"range list", "Ports() not strictly", "Ports() contains", "Ports() has", "Contains("} {
-		if j := strings.Index(clause, k); j >= 0 {
-			return k
+	for _, k := range []string{"range list", "Ports() not strictly", "Ports() contains", "Ports() has", "Contains(", "invalid expression accepted", "valid expression rejected", "panic"} {
+		if strings.Contains(clause, k) {
+			what := ""
+			if i := strings.IndexByte(clause, ':'); i > 0 && i < 30 && !strings.HasPrefix(clause, "panic") {
+				what = clause[:i] + " "
+			}
+			return what + k
 		}
 	}
 	return clause
